@@ -463,6 +463,42 @@ def _check_files(repo, r4, ci):
                    "(e.g. a chunk size larger than the length) works until it is closed and can never be opened again" % unparse(cmp_))
     else:
         r4.ok({"function": init.qual, "rule": "open validates the form of the metadata only"})
+    # the chunk files are reached through the two item-level mapping functions only (a second way in - a block-wise reader, a cache
+    # with its own arithmetic - is outside everything R19.1 establishes about indices, padding and offsets)
+    from ..normalize import load_known
+    ref_callers = set(load_known().get("refs", {}).get("%s::%s._get_file_by_id" % (PA, CORE), []))
+    for fi2 in ci.methods.values():
+        if fi2.name == "_get_file_by_id":
+            continue
+        for c2 in ast.walk(fi2.node):
+            if isinstance(c2, ast.Call) and dotted(c2.func) == "self._get_file_by_id":
+                if fi2.key in ref_callers:
+                    r4.ok({"function": fi2.qual, "calls": "_get_file_by_id"})
+                else:
+                    r4.fail_fn(fi2, c2, "new way into the chunk files",
+                               "%s obtains a chunk file itself (%s): items are read and written through _get_bytes_by_index / _write_bytes_to_file only, whose offset, "
+                               "length and zero-padding per item R19.1 depends on" % (fi2.qual, short(c2)))
+    # a cached handle is closed by close() only - or the cache slot is cleared with it: a closed handle left in the cache fails the next access
+    for fi2 in ci.methods.values():
+        if fi2.name in ("close", "release"):
+            continue
+        cfg2 = cfg_of(fi2.node)
+        resets = {n.id for n in cfg2.nodes if n.kind == "stmt" and isinstance(n.stmt, ast.Assign) and isinstance(n.stmt.value, ast.Constant) and n.stmt.value.value is None and
+                  any(isinstance(t, ast.Subscript) and unparse(t.value) == "self.__opened_files" for t in n.stmt.targets)}
+        for n in cfg2.nodes:
+            if n.stmt is None or n.ast is None:
+                continue
+            for c2 in ast.walk(n.ast if n.kind == "test" else n.stmt):
+                if isinstance(c2, ast.Call) and isinstance(c2.func, ast.Attribute) and c2.func.attr == "close" and not c2.args:
+                    recv = unparse(inline_locals(fi2.node, c2.func.value))
+                    if "__opened_files" not in recv:
+                        continue
+                    if resets and cfg2.must_pass(n.id, resets):
+                        r4.ok({"function": fi2.qual, "closes": recv, "slot": "cleared"})
+                    else:
+                        r4.fail_fn(fi2, c2, "cached handle closed but kept",
+                                   "%s closes %s and leaves the closed handle in the cache: the next access to that chunk gets it back from the cache and fails with "
+                                   "'seek of closed file' on an array that is still open" % (fi2.qual, recv))
     rel = ci.methods.get("release")
     rl = opens
     meta_rm = [x for (fn, call, kind), v in rl.items() if fn == "release" and call in ("os.unlink", "os.remove") and kind == "meta" for x in v]
